@@ -1,9 +1,9 @@
-import AsyncFix.Lemmas.SessionOutResendD
+import AsyncFix.Lemmas.SessionOutResendD2
 
 /-!
 C05, resend servicing, part E: the step relation `Good` holds across `_process_resend`
-(`processResend_hold`).  `OutInv`, numbering and counter: for EVERY ResendRequest.  Journal slots
-(`Slot`): when the request is not bounded (`U → e = sys.maxsize`).
+(`processResend_hold`), for EVERY ResendRequest: `OutInv`, numbering, counter and journal slots
+(`Slot`; rows above EndSeqNo are put back identically since fix da179c4).
 -/
 namespace AsyncFix.Session
 
@@ -83,56 +83,70 @@ theorem declined_of_not_replayable {sr : Msg → Bool} {snd tgt : String} {f g :
     | false => rfl
     | true => exact absurd (by rw [hn, hs]; rfl) h
 
+theorem Rows.find_congr {k : Int} {A B : Rows} (hA : Rows.Sorted A) (hB : Rows.Sorted B)
+    (h : ∀ g, (k, g) ∈ A ↔ (k, g) ∈ B) : Rows.find k A = Rows.find k B := by
+  cases hf : Rows.find k A with
+  | some g => exact (Rows.find_of_mem hB ((h g).mp (Rows.find_mem hf))).symm
+  | none =>
+    cases hg : Rows.find k B with
+    | none => rfl
+    | some g =>
+      have := Rows.find_of_mem hA ((h g).mpr (Rows.find_mem hg))
+      rw [hf] at this; cases this
+
 theorem slot_after_resend (env : Env) {c c' : Conn} {b e : Int} {es : List Effect} (hI : OutInv c)
-    (R : ResendOut env sr c c' b e es) (hall : ∀ p ∈ c.journal.out, p.1 ≤ e)
+    (R : ResendOut env sr c c' b e es) (hall : ∀ p ∈ c.journal.out, p.1 ≤ sysMaxsize)
     (k : Int) (f : Msg) (hs : Slot sr c k f) : Slot sr c' k f := by
   unfold Slot at hs ⊢
   rw [R.sender, R.target]
   by_cases hk : k < b
-  · rw [R.below k hk]; exact hs
+  · rw [Rows.find_congr R.sorted hI.sorted (fun g => R.below k g hk)]; exact hs
   · have hkb : b ≤ k := by omega
-    have huniq : ∀ g2, (k, g2) ∈ Rows.range b e c.journal.out → Rows.find k c.journal.out = some g2 :=
-      fun g2 h2 => Rows.find_of_mem hI.sorted (Rows.mem_range.mp h2).1
     cases hfc : Rows.find k c.journal.out with
     | none =>
       rw [hfc] at hs
       cases hf' : Rows.find k c'.journal.out with
       | none => exact hs
       | some g' =>
-        rcases R.above k g' hkb hf' with h4 | ⟨g2, rp, hm, _, _, _⟩
+        rcases R.above k g' hkb (Rows.find_mem hf') with ⟨_, h4 | ⟨g2, rp, hm, _⟩⟩ | ⟨_, hm⟩
         · exact Or.inr ⟨h4, hs⟩
-        · have := huniq g2 hm; rw [hfc] at this; cases this
+        · have := Rows.find_of_mem hI.sorted hm; rw [hfc] at this; cases this
+        · have := Rows.find_of_mem hI.sorted hm; rw [hfc] at this; cases this
     | some g =>
       rw [hfc] at hs
-      have hmem : (k, g) ∈ Rows.range b e c.journal.out :=
-        Rows.mem_range.mpr ⟨Rows.find_mem hfc, hkb, hall _ (Rows.find_mem hfc)⟩
-      by_cases hrep : Replayable sr g
-      · have hcopy : Copy c.sess.sender c.sess.target f g := by
-          rcases hs with h | ⟨h4, _⟩
-          · exact h
-          · exact absurd hrep (not_replayable_of_seqReset h4)
-        obtain ⟨rp, hrp, hfind⟩ := R.copies (k, g) hmem hrep
-        rw [hfind]
-        left
-        rw [buildFrame_sess]
-        exact Copy.resent env.stamp rp k hcopy hrp
-      · have hdecl : Declined sr c.sess.sender c.sess.target f := by
-          rcases hs with h | ⟨_, h⟩
-          · exact declined_of_not_replayable h hrep
-          · exact h
-        cases hf' : Rows.find k c'.journal.out with
-        | none => exact hdecl
-        | some g' =>
-          rcases R.above k g' hkb hf' with h4 | ⟨g2, rp, hm, hr2, _, _⟩
-          · exact Or.inr ⟨h4, hdecl⟩
-          · have := huniq g2 hm; rw [hfc] at this; cases this
-            exact absurd hr2 hrep
+      have hmem := Rows.find_mem hfc
+      have hmx : k ≤ sysMaxsize := hall _ hmem
+      by_cases hke : k ≤ e
+      · by_cases hrep : Replayable sr g
+        · have hcopy : Copy c.sess.sender c.sess.target f g := by
+            rcases hs with h | ⟨h4, _⟩
+            · exact h
+            · exact absurd hrep (not_replayable_of_seqReset h4)
+          obtain ⟨rp, hrp, hfind⟩ := R.copies (k, g) hmem hkb hke hmx hrep
+          rw [Rows.find_of_mem R.sorted hfind]
+          left
+          rw [buildFrame_sess]
+          exact Copy.resent env.stamp rp k hcopy hrp
+        · have hdecl : Declined sr c.sess.sender c.sess.target f := by
+            rcases hs with h | ⟨_, h⟩
+            · exact declined_of_not_replayable h hrep
+            · exact h
+          cases hf' : Rows.find k c'.journal.out with
+          | none => exact hdecl
+          | some g' =>
+            rcases R.above k g' hkb (Rows.find_mem hf') with ⟨_, h4 | ⟨g2, rp, hm, hr2, _, _⟩⟩ | ⟨h, _⟩
+            · exact Or.inr ⟨h4, hdecl⟩
+            · have := Rows.find_of_mem hI.sorted hm; rw [hfc] at this; cases this
+              exact absurd hr2 hrep
+            · omega
+      · rw [Rows.find_of_mem R.sorted (R.kept (k, g) hmem hkb (by omega) hmx)]
+        exact hs
 
-/-- the servicing proper satisfies the step relation -/
+/-- the servicing proper satisfies the step relation – for EVERY range `[b, e]` -/
 theorem resendCore_hold (env : Env) (c : Conn) (b e : Int) (hI : OutInv c)
     (hst : st_LOGON_INITIAL_SENT < c.state) (hstamp : isLatin1 env.stamp = true)
-    (hb : 1 ≤ b) (hbc : b < c.sess.nextOut) (hU : U → e = sysMaxsize) (hX : ¬ X) :
-    Hold sr U X c (resendCore env sr b (c.journal.recoverOut b e) c.sess.nextOut)
+    (hb : 1 ≤ b) (hbc : b < c.sess.nextOut) (hX : ¬ X) :
+    Hold sr U X c (resendCore env sr b e (c.journal.recoverOut b sysMaxsize) c.sess.nextOut)
       (fun _ _ => True) := by
   obtain ⟨c', es, heq, R⟩ := resendCore_run env sr c b e hI hst hstamp hb hbc
   have hlive : st_DISCONNECTED_BROKEN_CONN < c.state :=
@@ -151,18 +165,16 @@ theorem resendCore_hold (env : Env) (c : Conn) (b e : Int) (hI : OutInv c)
     freshSlot := by intro _ _ f hf; rw [R.noNew] at hf; cases hf
     keepRow := fun h => absurd h hX
     freshRow := fun h => absurd h hX }
-  intro hu hB k f _ hs
-  have he := hU hu
+  intro _ hB k f _ hs
   refine slot_after_resend env hI R ?_ k f hs
   intro p hp
   have := (hI.rows p hp).2
   rw [R.nextOut] at hB
-  rw [he]; omega
+  omega
 
 /-- **`_process_resend`** -/
 theorem processResend_hold (env : Env) (m : Msg) (c : Conn) (hI : OutInv c)
-    (hl : Live c) (hstamp : isLatin1 env.stamp = true)
-    (hU : U → (m.get? tEndSeqNo).bind pyInt = some 0) (hX : ¬ X) :
+    (hl : Live c) (hstamp : isLatin1 env.stamp = true) (hX : ¬ X) :
     Hold sr U X c (processResend env sr m) (fun _ _ => True) := by
   rw [processResend_eq]
   unfold processResend'
@@ -183,7 +195,7 @@ theorem processResend_hold (env : Env) (m : Msg) (c : Conn) (hI : OutInv c)
       if b < 1 || b ≥ c.sess.nextOut then
         if c.state != st_RESENDREQ_AWAITING then stateSet st_ACTIVE else pure ()
       else
-        resendCore env sr b (c.journal.recoverOut b (if e0 == 0 then sysMaxsize else e0))
+        resendCore env sr b (if e0 == 0 then sysMaxsize else e0) (c.journal.recoverOut b sysMaxsize)
           c.sess.nextOut) (fun _ _ => True) := by
     intro c1 hI1 hl1
     hstep; hstep; hstep
@@ -199,19 +211,7 @@ theorem processResend_hold (env : Env) (m : Msg) (c : Conn) (hI : OutInv c)
         simp only [Bool.or_eq_true, beq_iff_eq] at hstate
         rcases hstate with h | h <;> (rw [h]; decide)
       simp only [Bool.or_eq_true, decide_eq_true_eq, not_or] at hrange
-      refine resendCore_hold env c1 b _ hI1 hst hstamp (by omega) (by omega) ?_ hX
-      intro hu
-      have h0 := hU hu
-      have hget : m.get? tEndSeqNo = some ve := by
-        simp only [Msg.get] at hve
-        cases hx : m.get? tEndSeqNo with
-        | none => rw [hx] at hve; cases hve
-        | some w => rw [hx] at hve; cases hve; rfl
-      rw [hget] at h0
-      simp only [Option.bind_some] at h0
-      rw [he0] at h0
-      cases h0
-      rfl
+      exact resendCore_hold env c1 b _ hI1 hst hstamp (by omega) (by omega) hX
   hstep
   hstep
   · refine Hold.seq (stateSet_hold _ c hI (fun _ => hI.sock hl)) ?_
